@@ -3,11 +3,13 @@
 //! and per-property trace monitors.
 
 pub mod app;
+pub mod evil;
 pub mod facts;
 pub mod gen;
 pub mod mon_c01;
 pub mod mon_c02;
 pub mod mon_c03;
+pub mod mon_c04;
 pub mod mon_c06;
 pub mod mon_c08;
 pub mod mon_c09;
@@ -82,6 +84,26 @@ pub fn registry() -> Vec<Property> {
                packet arrived during the closing period). Distinct = distinct scenarios.",
         assumptions: &["frames are decoded by the harness's own RFC 9000 parser (wire.rs)"],
         subs: mon_c12::subs(),
+        shards: 0,
+    },
+    Property {
+        id: "C04",
+        rule: "evil peer: an honest s2n-quic endpoint (client or server) whose packet interceptor replaces, after both sides confirmed the \
+               handshake, the cleartext payload of its k-th packet by frames of a generated violation class built against the victim's current \
+               limits (stream data 1 byte or far beyond the stream limit, beyond MAX_DATA as a sum over streams, stream ids at/beyond MAX_STREAMS, \
+               conflicting final sizes in four ways, frames for send-only / not-yet-opened / receive-only streams, frames forbidden in Handshake \
+               packets, MAX_STREAMS/STREAMS_BLOCKED above 2^60, NEW_CONNECTION_ID with bad length or retire_prior_to, NEW_TOKEN/HANDSHAKE_DONE from a \
+               client, offset+length above 2^62-1) or of a legal-but-unusual control class. Oracle: table class -> permitted codes (RFC 9000 4.1, \
+               4.5, 4.6, 12.4, 19.x, plus PROTOCOL_VIOLATION per section 11); the victim must close while processing that packet with a permitted \
+               code, put the CONNECTION_CLOSE on the wire and not hand the offending stream to its application; control inputs must not close. \
+               Second sub-check: on generated honest lossy scenarios with small windows every MAX_STREAM_DATA / MAX_DATA / MAX_STREAMS emitted is \
+               <= consumed by the application (time-resolved read log) + configured window / limit. Non-trivial: the victim processed the \
+               rewritten packet; credit: MAX_DATA and MAX_STREAM_DATA both occurred.",
+        assumptions: &[
+            "the permitted-code table (evil.rs) is the trusted base; RFC 9000 section 11 lets PROTOCOL_VIOLATION stand in for any specific code",
+            "the rewritten packet replaces honest frames of the evil side, so only the victim's reaction to that packet is judged",
+        ],
+        subs: mon_c04::subs(),
         shards: 0,
     },
     Property {
